@@ -159,7 +159,7 @@ Fixpoint run_steps (n : nat) (cs : list ctrl) (stored : bool) (fr : fstate) : li
   end.
 Definition solve_is_fresh (fr : fstate) : bool := forallb fr all_parts.
 
-(* ---- histories with diverging time steps (continue_on_divergence=True).
+(* ---- histories with diverging time steps (continue_on_divergence=True): the behaviour BEFORE the two repairs named below.
    A step whose power flow raises is reported as failed (None).  Where the error surfaces decides what the next step sees:
    * inside the control loop (_evaluate_net, run_control.py:164-188) net._ppc is set to None, so the next step runs a full
      power flow;
@@ -174,16 +174,26 @@ Definition poisons (cs : list ctrl) : bool :=
    only place that raises LoadflowNotConverged, so a recycled power flow that did not converge is not noticed: the step is
    recorded as if it had been solved ([SSilent]) and the internals stay in place *)
 Inductive sres := SFailed | SSolved (fr : fstate) | SSilent.
-Fixpoint run_steps_div (divs : list bool) (cs : list ctrl) (ovr stored poisoned : bool) (fr : fstate) : list sres :=
+Fixpoint run_steps_div_old (divs : list bool) (cs : list ctrl) (ovr stored poisoned : bool) (fr : fstate) : list sres :=
   match divs with
   | [] => []
   | d :: ds =>
-      if poisoned then SFailed :: run_steps_div ds cs ovr stored true fr
+      if poisoned then SFailed :: run_steps_div_old ds cs ovr stored true fr
       else if d then
         (if ovr && stored && (match recyclability cs with Some _ => true | None => false end)
-         then SSilent :: run_steps_div ds cs ovr true false fr
-         else SFailed :: run_steps_div ds cs ovr false (poisons cs) fr)
-      else let fr' := time_step cs stored fr in SSolved fr' :: run_steps_div ds cs ovr true false fr'
+         then SSilent :: run_steps_div_old ds cs ovr true false fr
+         else SFailed :: run_steps_div_old ds cs ovr false (poisons cs) fr)
+      else let fr' := time_step cs stored fr in SSolved fr' :: run_steps_div_old ds cs ovr true false fr'
+  end.
+(* after "fix: the recycled power flow reports non-convergence in the only_v_results mode, too" and "fix: a time step whose
+   power flow diverged does not leave its internals for the next time step": every diverging step raises, is reported as
+   failed, and net._ppc is dropped (run_time_step), so the next step runs a full power flow *)
+Fixpoint run_steps_div (divs : list bool) (cs : list ctrl) (stored : bool) (fr : fstate) : list sres :=
+  match divs with
+  | [] => []
+  | d :: ds =>
+      if d then SFailed :: run_steps_div ds cs false fr
+      else let fr' := time_step cs stored fr in SSolved fr' :: run_steps_div ds cs true fr'
   end.
 (* G12c: a diverging step cannot poison the following ones *)
 Definition G12c (cs : list ctrl) : bool := negb (poisons cs).
@@ -319,5 +329,5 @@ Definition run_ts_div (cs : list ctrl) (divs : list bool) (l : list logv) : out 
   OL [ olist (fun c => oflags (ctrl_flags c)) cs;
        oflags rec;
        olist (fun r => match r with SFailed => ONone | SSolved fr => OB (solve_is_fresh fr) | SSilent => OS "silent" end)
-             (run_steps_div divs cs (match ts_writer rec l with WBatchOk => true | _ => false end) false false all_fresh);
+             (run_steps_div divs cs false all_fresh);
        owres (ts_writer rec l) ].
